@@ -133,6 +133,14 @@ def run_shard(spec):
                 violations.append(dict(wit, what="C13 mk_fun/gen_fun raised %s: %s" % (type(exc).__name__, str(exc)[:200])))
                 break
             counters["programs"] = counters.get("programs", 0) + 1
+            # another manager with the SAME container labels generates a function of its own before ours is called
+            # (what a generated function writes to must be fixed when it is generated)
+            try:
+                twin.mgr.gen_fun("setter", **{nm: twin.mkref(l["path"]) for nm, l in zip(names, args)})
+                counters["functions_generated_by_a_second_manager"] = counters.get("functions_generated_by_a_second_manager", 0) + 1
+            except Exception as exc:
+                violations.append(dict(wit, what="C13 gen_fun on the twin manager raised %s: %s" % (type(exc).__name__, str(exc)[:200])))
+                break
             # ---- source check ---------------------------------------------------------------
             lines = [ln.strip() for ln in src.split("\n")[1:]]
             by_text = {str(t): tid for tid, t in real.mgr.tasks.items() if isinstance(t, T.ExprTask)}
